@@ -5,7 +5,7 @@ import multiprocessing
 import wire
 import sgrterm
 from curtsies.formatstring import FmtStr, fmtstr
-from props.common import reply_fmt, api_pool
+from props.common import reply_fmt, api_pool, canon_cells
 
 PROP = "C05"
 MODULES = ["Curtsies.Properties.C05"]
@@ -194,7 +194,7 @@ def pyte_crosscheck(ctx, gc):
     """second opinion on the oracle's terminal (sgrterm.display): the vendored pyte emulator on grammar strings with
     printable ASCII text and without code 2 (pyte has no faint)"""
     name = "C05/pyte-vs-sgrterm"
-    t = ctx.ties.setdefault(name, dict(compared=0, disagreements=0))
+    t = ctx.ties.setdefault(name, dict(compared=0, disagreements=0, involves_impl=False, level="property"))
     picked = 0
     for i, c in enumerate(gc):
         if any(k == "s" and any(int(p) == 2 for p in v) for k, v in c):
@@ -261,7 +261,7 @@ def check_api(ctx):
         ctx.count(dict(label=label, chunks=chunks), nontrivial=any(a for _, a in chunks), tag="roundtrip-api")
         if w:
             ctx.violation(w, dict(label=label, chunks=chunks), None)
-    ctx.tie("C05/roundtrip-api", cases, lambda c: "roundtrip " + wire.enc_chunks(c["chunks"]), lambda c: replies[c["k"]])
+    tie2(ctx, "C05/roundtrip-api", cases, lambda c: "roundtrip " + wire.enc_chunks(c["chunks"]), lambda c: replies[c["k"]])
 
 
 def footprint(case, what):
@@ -283,12 +283,20 @@ def pmap(fn, cases, size=500):
         return [r for block in pool.map(fn, blocks) for r in block]
 
 
+def tie2(ctx, name, cases, line_fn, impl_fn):
+    """C05 speaks about the characters and the formatting ON EVERY CHARACTER of from_str's result: the property-level tie
+    compares per-character cells; how the result is cut into runs (and hence the exact bytes of str(f) it was parsed
+    from) is representation."""
+    ctx.tie(name, cases, line_fn, impl_fn, canon_cells, canon_cells)
+    ctx.tie(name + "-runs", cases, line_fn, impl_fn, level="representation")
+
+
 def check(ctx):
     gc = grammar_cases(ctx)
     res = pmap(_work_grammar, gc)
     idx = {id(c): i for i, c in enumerate(gc)}
-    ctx.tie("C05/fromstr", gc, lambda c: "fromstr " + wire.enc_tf(show(c)), lambda c: res[idx[id(c)]][0])
-    ctx.tie("C05/display-spec", gc, lambda c: "display " + wire.enc_tf(show(c)), lambda c: res[idx[id(c)]][1])
+    tie2(ctx, "C05/fromstr", gc, lambda c: "fromstr " + wire.enc_tf(show(c)), lambda c: res[idx[id(c)]][0])
+    ctx.tie("C05/display-spec", gc, lambda c: "display " + wire.enc_tf(show(c)), lambda c: res[idx[id(c)]][1], impl=False)
     for c, (_, _, w) in zip(gc, res):
         ctx.count(c, nontrivial=any(k == "s" for k, _ in c), tag="grammar")
         if w:
@@ -297,7 +305,7 @@ def check(ctx):
     rc = roundtrip_cases(ctx)
     res2 = pmap(_work_roundtrip, rc)
     idx2 = {id(c): i for i, c in enumerate(rc)}
-    ctx.tie("C05/roundtrip", rc, lambda ch: "roundtrip " + wire.enc_chunks(ch), lambda c: res2[idx2[id(c)]][0])
+    tie2(ctx, "C05/roundtrip", rc, lambda ch: "roundtrip " + wire.enc_chunks(ch), lambda c: res2[idx2[id(c)]][0])
     for c, (_, w) in zip(rc, res2):
         ctx.count(c, nontrivial=any(a for _, a in c), tag="roundtrip")
         if w:
